@@ -33,6 +33,8 @@ CliChecks(e) ==
            THEN (IF x.out = "appended"
                  THEN Flag(OutMatches(x.out, e.out), "C14_generate_did_not_append")
                  ELSE Flag(OutMatches(x.out, e.out), "C12_result_incomplete_or_wrong"))
+           ELSE IF c.cause \in OutputCauses
+           THEN Flag(x.out = "n/a" \/ OutMatches(x.out, e.out), "C13_output_created_although_it_cannot_be_written")
            ELSE IF c.cause \in LateCauses(c.cmd)
            THEN Flag(OutMatches(x.out, e.out), "C13_output_is_not_the_authenticated_prefix")
            ELSE Flag(OutMatches(x.out, e.out), "C13_output_created_or_clobbered_by_failed_command"))
